@@ -389,9 +389,14 @@ def c16(tier):
     for fmt, ch in fmts[:20]:
         gen_core.invalid_calls(S, fmt, ch, RATE, "rw", rng)
         gen_core.rdwr_random(S, fmt, ch, RATE, rng, steps=30, pre=10)
+    # files rich in metadata (strings, chunks, cue points, bext, cart, channel map) rejected at many parse depths: mutated seeds
+    od = os.path.join(vlib.ROOT, "out", "C16", tier)
+    os.makedirs(od, exist_ok=True)
+    seeds = gen_c03.seed_files(exe, fmts, RATE, od)
+    gen_c03.scenarios(S, seeds, rng, 40 if tier == "quick" else 600, routes=("vio", "fd", "path"), ncalls=4)
     mcs = [gen_core.mc_rw("R", 2, tag=tier[0])]
     return core_check("C16", tier, mcs, S.lines, "DESIGN.md section 6 C16",
-                      "heap (ASan allocator statistics minus the driver's own blocks), descriptor table and private TMPDIR compared before the first and after the last call of every scenario (EndOK), and around every failing open (OpenFailedOK): valid files truncated at every cut point (failures at each parse depth) on vio/fd/path routes, handles closed without I/O, handles with failed calls",
+                      "metadata-rich files mutated at header fields (failing at many parse depths after allocations); heap (ASan allocator statistics minus the driver's own blocks), descriptor table and private TMPDIR compared before the first and after the last call of every scenario (EndOK), and around every failing open (OpenFailedOK): valid files truncated at every cut point (failures at each parse depth) on vio/fd/path routes, handles closed without I/O, handles with failed calls",
                       t0)
 
 
@@ -595,7 +600,44 @@ def c18(tier):
                       t0)
 
 
-REGISTRY = {"C01": c01, "C07": c07, "C15": c15, "C10": c10, "C13": c13, "C03": c03, "C18": c18, "C11": c11, "C19": c19, "C14": c14, "C16": c16, "C04": c04, "C05": c05, "C06": c06, "C08": c08, "C09": c09}
+def c12(tier):
+    t0 = time.time()
+    exe = vlib.build()
+    rng = random.Random(vlib.SEED)
+    S = scen.Script()
+    conts = [(0x10002, 1), (0x10006, 2), (0x130002, 2), (0x220002, 2), (0x20002, 1), (0x20006, 2), (0x180002, 2), (0x180006, 1)]
+    other = [(0x30002, 1), (0xb0002, 2), (0x40002, 1), (0x70002, 1), (0xc0002, 1)]
+    lens = [1, 2, 3, 8, 31, 32, 64, 200] if tier == "quick" else [1, 2, 3, 4, 5, 7, 8, 9, 15, 16, 17, 31, 32, 33, 63, 64, 65, 127, 128, 200, 255, 256, 1000]
+    for fmt, ch in conts + other:
+        # every string type, one length each per scenario, several lengths overall
+        for L in lens:
+            gen_env.c12_scenario(S, fmt, ch, RATE, rng, [("str", t, L + (t % 3)) for t in gen_env.STR_TYPES], order=rng.choice([None, "rev", "shuffle"]))
+        # structured items one at a time and all together, boundary lengths of text fields and history / tag text
+        for L in ([1, 8, 10, 32, 64, 256] if tier == "quick" else [0, 1, 2, 7, 8, 9, 10, 11, 31, 32, 33, 63, 64, 65, 255, 256, 300]):
+            gen_env.c12_scenario(S, fmt, ch, RATE, rng, [("bext", L, rng.choice([13, 40, 255, 256, 1000, 9000]))])
+            gen_env.c12_scenario(S, fmt, ch, RATE, rng, [("cart", L, rng.choice([2, 40, 255, 1000, 9000]))])
+        for n in ([0, 1, 2, 16, 99, 100] if tier == "quick" else list(range(0, 101, 7)) + [99, 100]):
+            gen_env.c12_scenario(S, fmt, ch, RATE, rng, [("cues", rng.choice([0, 1, 20, 255]), n)])
+        for n in ([0, 1, 2, 16] if tier == "quick" else range(0, 17)):
+            gen_env.c12_scenario(S, fmt, ch, RATE, rng, [("inst", 0, n)])
+        gen_env.c12_scenario(S, fmt, ch, RATE, rng, [("bext", 10, 15000)], cfg={"big": 1})
+        gen_env.c12_scenario(S, fmt, ch, RATE, rng, [("cart", 10, 15000)], cfg={"big": 1})
+        gen_env.c12_scenario(S, fmt, ch, RATE, rng, [("chmap", 0, 1)])
+        gen_env.c12_scenario(S, fmt, ch, RATE, rng, [("chmap", 1, 1)])
+        gen_env.c12_scenario(S, fmt, ch, RATE, rng, [("chmap", 99, 1)])
+        allitems = [("str", 1, 9), ("str", 3, 12), ("str", 5, 40), ("bext", 10, 300), ("cart", 12, 77), ("cues", 6, 5), ("chmap", 1, 1)]
+        for order in (None, "rev", "shuffle"):
+            gen_env.c12_scenario(S, fmt, ch, RATE, rng, allitems, order=order)
+        gen_env.c12_scenario(S, fmt, ch, RATE, rng, allitems + [("inst", 0, 2)], cfg={"cuesinst": 1})
+        # too late: after audio has been written -- failure or ignored, audio and earlier metadata intact
+        gen_env.c12_scenario(S, fmt, ch, RATE, rng, allitems, late=True)
+    mcs = [gen_core.mc_rw("W", 0, tag=tier[0], maxwrites=1)]
+    return core_check("C12", tier, mcs, S.lines, "DESIGN.md section 6 C12",
+                      "WAV, WAVEX, RF64, AIFF, CAF (int and float) plus containers without metadata: every string type x lengths %s; bext and cart with every text field at boundary lengths and coding history / tag text up to 16000 bytes with LF, CR LF line ends; 0..100 cues; 0..16 loops; channel maps (valid and invalid); all items together in three orders; items set after the audio; after re-open every get call is compared with the normal form of what was set (GetMetaOK: support matrix, software suffix, CR/LF, appended history line), audio compared as in C01" % lens,
+                      t0)
+
+
+REGISTRY = {"C01": c01, "C07": c07, "C15": c15, "C10": c10, "C13": c13, "C03": c03, "C18": c18, "C12": c12, "C11": c11, "C19": c19, "C14": c14, "C16": c16, "C04": c04, "C05": c05, "C06": c06, "C08": c08, "C09": c09}
 
 
 def replay(prop, path):
